@@ -55,6 +55,8 @@ def _small_blob():
 @st.composite
 def batch_cases(draw):
     n = draw(st.sampled_from([1, 1, 2, 2, 3, 4, 5, 8]))
+    if draw(st.integers(0, 39)) == 0:
+        n = draw(st.sampled_from([255, 256, 257, 300]))  # hundreds of records (record count beyond one byte / small-int range)
     first = draw(st.one_of(st.sampled_from([0, 1, 2**31, 2**62, 2**63 - 1 - 2**31, -(2**63) + 2**31]),
                            st.integers(-(2**63) + 2**31, 2**63 - 1 - 2**31)))
     deltas = [0] + [draw(st.one_of(st.sampled_from([0, 1, -1, 63, 64, -64, -65, 2**31 - 1, -(2**31), 8191, 8192]),
@@ -223,6 +225,21 @@ def check(case) -> list[tuple[str, str]]:
     if outs[0] != outs[1]:
         return [("write_batch-differs-from-write_new_batch", _brief(case))]
     data = outs[0]
+    if len(data) % 4 == 1:
+        # the target is not always a fresh buffer: a REUSED BytesIO that still holds older, longer content is overwritten from
+        # position 0 (what lies behind the new batch stays), and a batch is appended behind existing content
+        for label, prefill, pos in (("reused", b"\x5a" * (len(data) + 37), 0), ("appended", b"older-content", 13)):
+            buf = io.BytesIO(prefill)
+            buf.seek(pos)
+            try:
+                write_new_batch(buf, nb)
+            except Exception as e:
+                return [(f"write-raised:{label}-buffer:{K.exc_signature(e)}", f"write_new_batch into a {label} buffer raised {e!r} for {_brief(case)}")]
+            got = buf.getvalue()
+            if got[pos:pos + len(data)] != data or got[:pos] != prefill[:pos] or got[pos + len(data):] != prefill[pos + len(data):]:
+                k = next((i for i, (a, b) in enumerate(zip(got[pos:], data)) if a != b), -1)
+                return [(f"bytes-depend-on-target-content:{label}", f"write_new_batch into a {label} BytesIO (older content of {len(prefill)} bytes, position {pos}) wrote "
+                         f"different bytes than into a fresh one (first difference at batch offset {k}) or disturbed the surrounding content; {_brief(case)}")]
     try:
         wb, used = decode_batch(data)
     except BatchFormatError as e:
